@@ -545,11 +545,12 @@ def menu(unit, recipe):
         ev = [["set", "condition_code", cc(0)], ["set", "condition_code", cc(6)], ["set", "file_store_responses", None],
               ["set", "file_store_responses", {"resps": [U.hexed(U.RESP_ONE_NAME)]}],
               ["set", "file_store_responses", {"resps": [U.hexed(U.RESP_TWO_NAMES_MSG), U.hexed(U.RESP_ONE_NAME)]}],
+              ["set", "file_store_responses", {"resps": [U.hexed(U.RESP_REPLACE)]}],  # the third two-name action
               ["set", "fault_location", None], ["set", "fault_location", ent], ["set", "finished_params.file_status", {"enum": "FileStatus", "v": 3}]]
     elif name == "AckPdu":
         ev = [["set", "condition_code_of_acked_pdu", cc(4)], ["set", "transaction_status", {"enum": "TransactionStatus", "v": 3}]]
     elif name == "MetadataPdu":
-        ev = [["set", "options", None], ["set", "options", {"opts": [U.hexed(U.OPT_FLOW)]}], ["set", "options", {"opts": U.hexed(U.OPTS_MIXED)}],
+        ev = [["set", "options", None], ["set", "options", {"opts": [U.hexed(U.OPT_FLOW)]}], ["set", "options", {"opts": U.hexed(U.OPTS_MIXED)}], ["set", "options", {"opts": U.hexed(U.OPTS_REPLACE_REQ)}],
               ["set", "source_file_name", None], ["set", "source_file_name", "ä.bin"], ["set", "dest_file_name", None],
               ["set", "dest_file_name", "d/e.f"], ["set", "params.file_size", 0x0A0B]]
     elif name == "NakPdu":
